@@ -39,6 +39,7 @@ def main():
         democmd=re.sub(r'^cd \S+ && ','',democmd.strip())
         m2=re.search(r'\bgo (test|run)\b', democmd)
         if m2: democmd=democmd[m2.start():]
+        democmd=re.split(r'\s+\(', democmd)[0].strip()
         res['demo_cmd']=democmd
         if dest:
             os.makedirs(os.path.dirname(wt+'/'+dest),exist_ok=True)
